@@ -1,5 +1,5 @@
 (** C02 — Session delivery: no event lost, duplicated or reordered within a writer. *)
-From Coq Require Import List ZArith NArith Bool.
+From Coq Require Import List ZArith NArith Bool Sorted.
 From BL Require Import Base.Bytes Reader.Entry Queue.QueueModel Queue.QueueInv Session.SessionModel Session.SessionInv Session.SessionProps Session.SessionRemoval Gen.SrcFacts.
 Import ListNotations.
 Local Open Scope Z_scope.
@@ -49,6 +49,27 @@ Proof.
   exact timely_delivery.
 Qed.
 Print Assumptions C02_timely_delivery.
+(** (2c) order across a queue replacement. In every reachable state the channels are listed - and hence polled by every consume - in the
+    order of their creation (strictly increasing uid); a writer whose queue is replaced continues on a channel created at that moment, with
+    the next uid, appended at the end: it is polled after the one it replaces for as long as both exist. (That the concatenated output of
+    one writer's events is in program order follows with the per-channel FIFO theorem; the concatenation itself is not a theorem here.) *)
+Theorem C02_channels_polled_in_creation_order : forall cs ops, Forall sop_rm ops ->
+  Sorted.StronglySorted N.lt (map ch_uid (channels (fst (srun SrcFacts.sess_fence_after_closed_test (sess_init cs) ops)))).
+Proof.
+  generalize (eq_refl : SrcFacts.sess_fence_after_closed_test = true). generalize SrcFacts.sess_fence_after_closed_test. intros b_ ->.
+  generalize (eq_refl : SrcFacts.sess_create_appends = true). generalize SrcFacts.sess_create_appends. intros b2 ->.
+  exact channels_polled_in_creation_order.
+Qed.
+Print Assumptions C02_channels_polled_in_creation_order.
+Theorem C02_replacement_channel_is_last : forall s w k p, WInv s -> snd (add_event s w k p) = false ->
+  assoc w (writers s) <> None -> (exists c, find_chan (match assoc w (writers s) with Some u => u | None => 0%N end) (channels s) = Some c) ->
+  exists olds cnew, channels (fst (add_event s w k p)) = olds ++ [cnew] /\ map ch_uid olds = map ch_uid (channels s) /\
+    ch_uid cnew = next_uid s /\ ch_owner cnew = Some w /\ assoc w (writers (fst (add_event s w k p))) = Some (next_uid s).
+Proof.
+  generalize (eq_refl : SrcFacts.writer_replace_shape = true). generalize SrcFacts.writer_replace_shape. intros b1 ->.
+  exact replacement_channel_is_last.
+Qed.
+Print Assumptions C02_replacement_channel_is_last.
 Example C02_removal_nonvacuous :
   Forall sop_rm rm_ops /\
   let s := fst (srun true (sess_init default_cs) rm_ops) in
